@@ -8,6 +8,7 @@ import (
 	"runtime"
 	"sort"
 	"sync"
+	"sync/atomic"
 	"time"
 
 	"gopkg.in/typ.v4/chans"
@@ -136,7 +137,8 @@ func c19queued(c *core.Ctx) {
 			var got []int
 			if p, pv := core.Catch(func() {
 				if full {
-					buf := make([]int, limit)
+					// the buffer has spare capacity: only len(buf) may be filled
+					buf := make([]int, limit, limit+3)
 					for i := range buf {
 						buf[i] = -1
 					}
@@ -202,7 +204,16 @@ func c19queued(c *core.Ctx) {
 	}
 }
 
+// timedStuck: once a timed helper has been caught never returning, the stuck
+// goroutines (and possibly a poisoned timer pool) stay in this process; further
+// scenarios here would only burn a minute each. One verdict per process.
+var timedStuck atomic.Bool
+
 func c19timed(c *core.Ctx) {
+	if timedStuck.Load() {
+		c.Count("timed_scenarios_skipped_after_stuck_call", 1)
+		return
+	}
 	r := c.R
 	switch r.Intn(6) {
 	case 0, 1:
@@ -352,6 +363,7 @@ func c19send(c *core.Ctx, r *core.Rand) {
 	results := make([]res, ns)
 	var wg sync.WaitGroup
 	ctx, cancel := context.WithCancel(context.Background())
+	defer cancel()
 	cancelAfter := dur(r, 20, 3000)
 	for s := 0; s < ns; s++ {
 		s := s
@@ -407,7 +419,9 @@ func c19send(c *core.Ctx, r *core.Rand) {
 	if useCtx {
 		time.AfterFunc(cancelAfter, cancel)
 	}
-	wg.Wait()
+	if !boundedJoin(c, &wg, map[bool]string{false: "SendTimeout", true: "SendContext"}[useCtx], timeout, useCtx) {
+		return
+	}
 	cancel()
 	close(stop)
 	<-recvDone
@@ -496,6 +510,7 @@ func c19recv(c *core.Ctx, r *core.Rand) {
 		}
 	}()
 	ctx, cancel := context.WithCancel(context.Background())
+	defer cancel()
 	if neverCancel {
 		// a context that can never be cancelled (Done() == nil): only the close ends the receivers
 		type ck struct{}
@@ -541,7 +556,13 @@ func c19recv(c *core.Ctx, r *core.Rand) {
 			}
 		}()
 	}
-	wg.Wait()
+	if !neverCancel {
+		if !boundedJoin(c, &wg, map[bool]string{false: "RecvTimeout", true: "RecvContext"}[useCtx], timeout, useCtx) {
+			return
+		}
+	} else {
+		wg.Wait()
+	}
 	cancel()
 	close(stop)
 	<-prodDone
@@ -686,4 +707,29 @@ func diff(a, b []int) (onlyA, onlyB []int) {
 		}
 	}
 	return
+}
+
+// boundedJoin: every call in these scenarios has a positive timeout of at most
+// 2 ms (or a context that is cancelled after at most 3 ms), so each of the at
+// most 48 calls must return within milliseconds. A scenario that is still not
+// finished after 60 s - four orders of magnitude later - contains a call whose
+// timeout never fired: that is the bounded-progress form of "cancels after the
+// given duration", reported as a violation. (This is the one place where a
+// wall-clock bound is a verdict: the property itself is about a deadline; the
+// margin is x30000.)
+func boundedJoin(c *core.Ctx, wg *sync.WaitGroup, helper string, timeout time.Duration, ctx bool) bool {
+	done := make(chan struct{})
+	go func() { wg.Wait(); close(done) }()
+	select {
+	case <-done:
+		return true
+	case <-time.After(60 * time.Second):
+	}
+	how := fmt.Sprintf("a positive timeout of %v", timeout)
+	if ctx {
+		how = "a context cancelled within 3 ms"
+	}
+	timedStuck.Store(true)
+	c.Violate(helper+":does-not-return", fmt.Sprintf("a %s call with %s has not returned after 60 s", helper, how), map[string]any{"helper": helper, "timeout_us": timeout.Microseconds()})
+	return false
 }
